@@ -15,7 +15,7 @@ for p in props:
         e = json.load(open(f))
         c = e['coverage']
         L.append('| %s | %s | %s | %s / %s | %d | %d | %s | %d |' % (p['id'], 'yes' if p['id'] in claimed else 'no', e['tier'], c.get('discharged'), c.get('obligations'),
-                                                               sum((b.get('obligations', 1) if isinstance(b, dict) else 1) for b in c.get('bounded', [])), len(c.get('known_findings', [])), e['wall_s'], len(c.get('functions_under_contract', {}))))
+                                                               sum((b.get('obligations', 1) if isinstance(b, dict) else 1) for b in c.get('bounded', [])), len(c.get('known_findings', [])), e['wall_s'], (lambda f: f.get('count') or len(f.get('rows') or f))(c.get('functions_under_contract', {}))))
     else:
         L.append('| %s | %s | - | - | - | - | - | - |' % (p['id'], 'yes' if p['id'] in claimed else 'no'))
 L += ['', '## 12. Defects of g-truc/glm found by the checks', '', '### 12.1 Repaired (`fix:` commits in /repo; each check passes on the repaired tree and reports the violation again if it returns)', '',
